@@ -1,7 +1,16 @@
 package main
 
 import (
+	"context"
+	"encoding/binary"
 	"encoding/json"
+	"io"
+	"net"
+	"time"
+
+	"github.com/TarsCloud/TarsGo/tars/protocol/codec"
+	"github.com/TarsCloud/TarsGo/tars/protocol/res/basef"
+	"github.com/TarsCloud/TarsGo/tars/protocol/res/requestf"
 	"fmt"
 	"math/rand"
 	"os"
@@ -332,6 +341,40 @@ func cmdIDSeq(out string) error {
 			w.Write(tr.Ev{"kind": "burst", "start": ms, "ids": all, "mapped": true})
 		}
 	}
+	// many short bursts started exactly at / just below the wrap point: the overflow guard itself must be atomic
+	for round := 0; round < 600; round++ {
+		s := maxInt32 - int32(round%3)
+		tars.VerifSetMsgID(s)
+		const G, N = 16, 2
+		res := make([][]int, G)
+		var wg sync.WaitGroup
+		gate := make(chan struct{})
+		for g := 0; g < G; g++ {
+			wg.Add(1)
+			go func(g int) {
+				defer wg.Done()
+				<-gate
+				for i := 0; i < N; i++ {
+					m, _ := mapID(tars.VerifGenRequestID(sp))
+					res[g] = append(res[g], m)
+				}
+			}(g)
+		}
+		close(gate)
+		wg.Wait()
+		var all []int
+		for _, r := range res {
+			all = append(all, r...)
+		}
+		sort.Ints(all)
+		ms, _ := mapID(s)
+		w.Write(tr.Ev{"kind": "burst", "start": ms, "ids": all, "mapped": true})
+	}
+	// ids on the wire: what a peer sees when concurrent callers make one-way and two-way calls (judged for zero and
+	// duplicates; one-way requests carry ids like every other request)
+	if err := wireIDs(w); err != nil {
+		return err
+	}
 	// long concurrent bursts (only judged for zero and duplicates): 8 goroutines x 800 draws on real cores
 	for round := 0; round < 6; round++ {
 		s := []int32{maxInt32 - 100, -300, 5}[round%3]
@@ -363,6 +406,101 @@ func cmdIDSeq(out string) error {
 		w.Write(tr.Ev{"kind": "bigburst", "start": ms, "ids": all, "mapped": true})
 	}
 	return w.Close()
+}
+
+// wireIDs records the request ids a raw peer reads from the connection while G goroutines make one-way and two-way calls
+// through the real proxy (nothing is answered; two-way calls end by their 60 ms timeout).
+func wireIDs(w *tr.Writer) error {
+	ln, err := net.Listen("tcp", "127.0.0.1:0")
+	if err != nil {
+		return err
+	}
+	defer ln.Close()
+	var mu sync.Mutex
+	var seen []int32
+	go func() {
+		for {
+			c, err := ln.Accept()
+			if err != nil {
+				return
+			}
+			go func(c net.Conn) {
+				defer c.Close()
+				hdr := make([]byte, 4)
+				for {
+					if _, err := io.ReadFull(c, hdr); err != nil {
+						return
+					}
+					n := int(binary.BigEndian.Uint32(hdr))
+					if n < 4 || n > 1<<20 {
+						return
+					}
+					body := make([]byte, n-4)
+					if _, err := io.ReadFull(c, body); err != nil {
+						return
+					}
+					var req requestf.RequestPacket
+					if req.ReadFrom(codec.NewReader(body)) == nil && req.SFuncName != "tars_ping" {
+						mu.Lock()
+						seen = append(seen, req.IRequestId)
+						mu.Unlock()
+					}
+				}
+			}(c)
+		}
+	}()
+	comm := tars.NewCommunicator()
+	sp := tars.NewServantProxy(comm, fmt.Sprintf("Mux.Wire.Obj@tcp -h 127.0.0.1 -p %d -t 1000", ln.Addr().(*net.TCPAddr).Port))
+	sp.TarsSetTimeout(60)
+	call := func(oneway bool) {
+		var resp requestf.ResponsePacket
+		ct := byte(basef.TARSNORMAL)
+		if oneway {
+			ct = byte(basef.TARSONEWAY)
+		}
+		_ = sp.TarsInvoke(context.Background(), ct, "echo", []byte{1, 2, 3}, nil, nil, &resp)
+	}
+	call(true) // warm-up: one connection before the concurrent callers start
+	time.Sleep(20 * time.Millisecond)
+	for round, start := range []int32{maxInt32 - 5, -9, 1000, maxInt32 - 2, -3} {
+		mu.Lock()
+		seen = nil
+		mu.Unlock()
+		tars.VerifSetMsgID(start)
+		const G = 8
+		var wg sync.WaitGroup
+		for g := 0; g < G; g++ {
+			wg.Add(1)
+			go func(g int) {
+				defer wg.Done()
+				call(g%2 == 0 || round%2 == 0)
+				call(true)
+			}(g)
+		}
+		wg.Wait()
+		for i := 0; i < 200; i++ {
+			mu.Lock()
+			n := len(seen)
+			mu.Unlock()
+			if n >= 2*G {
+				break
+			}
+			time.Sleep(5 * time.Millisecond)
+		}
+		mu.Lock()
+		var ids []int
+		ok := true
+		for _, id := range seen {
+			m, k := mapID(id)
+			ok = ok && k
+			ids = append(ids, m)
+		}
+		mu.Unlock()
+		sort.Ints(ids)
+		ms, _ := mapID(start)
+		w.Write(tr.Ev{"kind": "wire", "start": ms, "ids": ids, "mapped": ok, "expected": 2 * G})
+	}
+	return nil
 }
 
 var _ = strconv.Itoa
